@@ -67,8 +67,17 @@ func c15GenIdent(t *rapid.T, locals []string, label string) c15Ident {
 	return c15Spell(t, ns, local, label)
 }
 
+// c15NSRot: which expansion each payload-local prefix stands for in the payload being generated
+// (prefix i -> expansion (i+rot) mod n). It changes from payload to payload: a payload's context is
+// its own, the same local prefix means something else in the next request.
+var c15NSRot int
+
+func c15CurNS(i int) c15NS {
+	return c15NS{c15NSPool[i].Prefix, c15NSPool[(i+c15NSRot)%len(c15NSPool)].Exp}
+}
+
 func c15Spell(t *rapid.T, ns int, local, label string) c15Ident {
-	n := c15NSPool[ns]
+	n := c15CurNS(ns)
 	full := n.Exp + local
 	forms := []string{"curie", "absolute"}
 	if ns == 0 && !strings.Contains(local, ":") {
@@ -431,7 +440,10 @@ type c15Coll struct {
 
 func c15GenColl(t *rapid.T, minEnts, maxEnts int) *c15Coll {
 	c := &c15Coll{Cls: map[string]bool{}}
-	c.Ctx = append(c.Ctx, c15NSPool...)
+	c15NSRot = rapid.IntRange(0, len(c15NSPool)-1).Draw(t, "nsRotation")
+	for i := range c15NSPool {
+		c.Ctx = append(c.Ctx, c15CurNS(i))
+	}
 	if rapid.Bool().Draw(t, "extra-ns") {
 		c.Ctx = append(c.Ctx, c15NS{"unused", "http://ex.org/unused/"})
 	}
@@ -705,6 +717,26 @@ func TestVerif_C15_roundtrip(t *testing.T) {
 				c15Fail(t, cs, "GET /datasets/%s/entities (limit %d) does not give back what was posted: %s", ds, limit, d)
 			}
 			kit.S().AddExtra("pages_parsed_back", 2*len(bodies))
+		}
+		// a second request to the same hub whose context gives the same local prefixes another meaning:
+		// every payload is read under its own context, nothing of an earlier request's may stick
+		if via == "entities" && rapid.Bool().Draw(t, "secondPost") {
+			c2 := c15GenColl(t, 1, 8)
+			c15CreateDataset(t, w, "d2")
+			payload2 := c15Stream(c2.Elems(-1, nil), c2.Sep)
+			cs.Names = append(cs.Names, "d2")
+			cs.Payload += "\n-- second request, to d2 --\n" + payload2
+			if code, body := w.Do("POST", "/datasets/d2/entities", payload2, nil); code != 200 {
+				c15Fail(t, cs, "valid payload rejected: second POST /datasets/d2/entities -> %d %s", code, body)
+			}
+			bodies, err := c15ReadBack(w, "d2", "changes", limit)
+			if err != nil {
+				c15Fail(t, cs, "%v", err)
+			}
+			if d := c15CheckBodies(down, bodies, c2.Fulls(), true); d != "" {
+				c15Fail(t, cs, "second request (same local prefixes, other expansions): GET /datasets/d2/changes does not give back what was posted: %s", d)
+			}
+			kit.S().Class("second-request-with-other-context", 1)
 		}
 	})
 }
